@@ -81,6 +81,7 @@ class Ctx:
         self.env = {}          # python name -> (gallina term, type)
         self.n = 0
         self.self_term = 'self'
+        self.defcls = cls      # the class in which the method being translated is defined (for super())
         self.refined = {}      # python name -> class (after isinstance), its fields are bound as s_<field>
 
     def fresh(self, base='c', ty=None):
@@ -95,6 +96,7 @@ class Ctx:
         c.env = dict(self.env)
         c.n = self.n
         c.self_term = self.self_term
+        c.defcls = self.defcls
         c.refined = dict(self.refined)
         return c
 
@@ -149,10 +151,14 @@ def tr(ctx, e, k):
         die(e, 'attribute')
     if isinstance(e, ast.IfExp):
         def kt(tt, tyt):
-            if tyt != 'dict':
-                die(e, 'conditional expression on a non-dict condition')
+            if tyt == 'dict':
+                tt = f'negb (isnil {tt})'
+            elif tyt != 'bool':
+                die(e, f'conditional expression on a condition of type {tyt}')
+            if is_effect(ctx, e.body) or is_effect(ctx, e.orelse):
+                die(e, 'effectful branch of a conditional expression outside return position')
             return tr(ctx, e.body, lambda ta, tya: tr(ctx, e.orelse, lambda tb, tyb:
-                      k(f'(if negb (isnil {tt}) then {ta} else {tb})', tya) if tya == tyb else die(e, 'branches of different type')))
+                      k(f'(if {tt} then {ta} else {tb})', tya) if tya == tyb else die(e, 'branches of different type')))
         return tr(ctx, e.test, kt)
     if isinstance(e, ast.Dict) and not e.keys:
         return k('[]', 'dict')
@@ -184,17 +190,14 @@ def tr(ctx, e, k):
 
             def fin(t):
                 return k(f'(negb {t})' if neg else t, 'bool')
-            # EVar(x) in self.e_fresh / SVar(x) in self.s_fresh
-            if isinstance(a, ast.Call) and isinstance(a.func, ast.Name) and a.func.id in ('EVar', 'SVar') and len(a.args) == 1:
-                want = 'evars' if a.func.id == 'EVar' else 'svars'
-                return tr(ctx, a.args[0], lambda ta, tya: tr(ctx, b, lambda tb, tyb:
-                          fin(f'(mem {ta} {tb})') if (tya == 'N' and tyb == want) else die(e, f'{a.func.id}(_) in {tyb}')))
 
             def k1(ta, tya):
                 def k2(tb, tyb):
                     if tya == 'N' and tyb == 'dict':
                         return fin(f'(amem {ta} {tb})')
                     if tya == 'N' and tyb == 'set':
+                        return fin(f'(mem {ta} {tb})')
+                    if (tya, tyb) in (('evarobj', 'evars'), ('svarobj', 'svars')):      # EVar(x) in self.e_fresh
                         return fin(f'(mem {ta} {tb})')
                     die(e, f'{tya} in {tyb}')
                 return tr(ctx, b, k2)
@@ -226,6 +229,9 @@ def tr(ctx, e, k):
                         else f'(if {acc} then {k("true", "bool")} else {rest})')
             return tr(ctx, vals[i], kv)
         return go(0, None)
+    if isinstance(e, ast.BinOp) and isinstance(e.op, ast.BitOr):        # set union / dict merge, as a.union(b) / {**a, **b}
+        return tr(ctx, e.left, lambda ta, tya: tr(ctx, e.right, lambda tb, tyb:
+                  k(f'({ta} ++ {tb})', tya) if tya == tyb and tya in ('set', 'dict') else die(e, f'{tya} | {tyb}')))
     if isinstance(e, ast.Subscript) and isinstance(e.slice, ast.Constant) and e.slice.value in (0, 1):
         def kp(t, ty):
             if ty == 'pair':
@@ -285,6 +291,9 @@ def tr(ctx, e, k):
                 return tr(ctx, e.args[0], lambda t, ty: k(t, 'dict') if ty == 'dict' else die(e, 'frozendict of non-dict'))
             if f.id == 'Proved' and len(e.args) == 1:
                 return tr(ctx, e.args[0], lambda t, ty: k(t, 'proved') if ty == 'pat' else die(e, 'Proved of non-pattern'))
+            if f.id in ('EVar', 'SVar') and len(e.args) == 1 and not e.keywords:
+                # the variable object is represented by its id
+                return tr(ctx, e.args[0], lambda t, ty: k(t, 'evarobj' if f.id == 'EVar' else 'svarobj') if ty == 'N' else die(e, 'variable id'))
             if f.id == 'match_single' and len(e.args) == 3 and not e.keywords:
                 def a3(i, acc):
                     if i == 3:
@@ -313,10 +322,7 @@ def tr(ctx, e, k):
                     want = FIELD_T[fld]
                     # ESubst(..., var=EVar(x), ...): the variable object is stored as its id
                     if f.id in ('ESubst', 'SSubst') and fld == 'var':
-                        if not (isinstance(a, ast.Call) and isinstance(a.func, ast.Name)
-                                and a.func.id == ('EVar' if f.id == 'ESubst' else 'SVar') and len(a.args) == 1):
-                            die(a, 'substitution variable must be EVar(_)/SVar(_)')
-                        a = a.args[0]
+                        want = 'evarobj' if f.id == 'ESubst' else 'svarobj'      # stored as the variable id
                     elif f.id in ('Exists', 'Mu') and fld == 'var' and isinstance(a, ast.Attribute) and a.attr == 'name':
                         pass
                     return tr(ctx, a, lambda t, ty: build(i + 1, acc + [t]) if ty == want else die(a, f'field {fld}: {ty} for {want}'))
@@ -337,59 +343,28 @@ def tr(ctx, e, k):
                     c = ctx.fresh('c', pty)
                     return f'bind ({prim} flags_current n {t}) (fun {c} => {k(c, pty)})'
                 return tr(ctx, e.args[0], kprim)
-            if isinstance(f.value, ast.Name) and f.value.id in ctx.refined and m in ('simplify', 'can_be_replaced_by'):
+            if isinstance(f.value, ast.Name) and f.value.id in ctx.refined and m not in METHODS:
                 cls = ctx.refined[f.value.id]
-                body = ctx.classes[cls].get(m)
-                if body is None:
+                dc, fn = resolve(ctx.classes, cls, m)
+                if fn is None:
                     die(e, f'{cls}.{m} not found')
-                params = [a.arg for a in body.args.args[1:]]
-                stmts = strip_doc(body.body)
-                if len(params) != len(e.args) or not (len(stmts) == 1 and isinstance(stmts[0], ast.Return)):
-                    die(e, 'inlined helper')
-                c2 = ctx.copy()
-                c2.cls = cls
-                c2.self_term = ctx.env[f.value.id][0]
-
-                def inl2(i):
-                    if i == len(params):
-                        c2.n = max(c2.n, ctx.n)
-                        r = tr(c2, stmts[0].value, k)
-                        ctx.n = c2.n
-                        return r
-
-                    def ka(t, ty):
-                        c2.env[params[i]] = (t, ty)
-                        return inl2(i + 1)
-                    return tr(ctx, e.args[i], ka)
-                return inl2(0)
+                return inline_expr(ctx, cls, dc, fn, ctx.env[f.value.id][0], e.args, k, f'{cls}.{m}')
             if m == 'union' and len(e.args) == 1:
                 return tr(ctx, f.value, lambda ta, tya: tr(ctx, e.args[0], lambda tb, tyb:
                           k(f'({ta} ++ {tb})', 'set') if tya == tyb == 'set' else die(e, 'union')))
-            if m in ('simplify', 'can_be_replaced_by') and isinstance(f.value, ast.Name) and f.value.id == 'self':
-                body = ctx.classes[ctx.cls].get(m)
-                if body is None:
+            # super().m(args): the body the base class gives to m, for the same object
+            if (isinstance(f.value, ast.Call) and isinstance(f.value.func, ast.Name) and f.value.func.id == 'super' and not f.value.args
+                    and ctx.cls in CTORS):
+                dc, fn = resolve(ctx.classes, ctx.cls, m, after=ctx.defcls)
+                if fn is None:
+                    die(e, f'super().{m} not found')
+                return inline_expr(ctx, ctx.cls, dc, fn, ctx.self_term, e.args, k, f'super().{m}')
+            # self.helper(args): a method that is not one of the translated entry points is inlined
+            if isinstance(f.value, ast.Name) and f.value.id == 'self' and m not in METHODS and ctx.cls in CTORS:
+                dc, fn = resolve(ctx.classes, ctx.cls, m)
+                if fn is None:
                     die(e, f'{ctx.cls}.{m} not found')
-                params = [a.arg for a in body.args.args[1:]]
-                if len(params) != len(e.args):
-                    die(e, 'arity')
-                stmts = strip_doc(body.body)
-                if not (len(stmts) == 1 and isinstance(stmts[0], ast.Return)):
-                    die(body, 'inlined helper must be a single return')
-                c2 = ctx.copy()
-
-                def inl(i):
-                    # arguments are evaluated left to right and bound to the parameter names
-                    if i == len(params):
-                        c2.n = max(c2.n, ctx.n)
-                        r = tr(c2, stmts[0].value, k)
-                        ctx.n = c2.n
-                        return r
-
-                    def ka(t, ty):
-                        c2.env[params[i]] = (t, ty)
-                        return inl(i + 1)
-                    return tr(ctx, e.args[i], ka)
-                return inl(0)
+                return inline_expr(ctx, ctx.cls, dc, fn, ctx.self_term, e.args, k, f'{ctx.cls}.{m}')
             if m in METHODS:
                 gname, params, rty, fuel = METHODS[m]
                 if len(e.args) != len(params) or e.keywords:
@@ -414,6 +389,65 @@ def tr(ctx, e, k):
                 return tr(ctx, f.value, krecv)
             die(e, 'method call')
     die(e, 'expression')
+
+
+def inline_expr(ctx, cls, defcls, fn, self_term, arg_nodes, k, what):
+    """a call of a helper whose body is `x1 = E1; ...; return E`: the body with the parameters bound to the (evaluated)
+    arguments, the locals to their definitions"""
+    params = [a.arg for a in fn.args.args]
+    if params and params[0] in ('self', 'cls'):
+        params = params[1:]
+    stmts = body_of(fn)
+    if len(params) != len(arg_nodes) or fn.args.defaults or not stmts or not isinstance(stmts[-1], ast.Return) \
+            or not all(isinstance(x, (ast.Assign, ast.AnnAssign)) and isinstance(x.targets[0] if isinstance(x, ast.Assign) else x.target, ast.Name)
+                       for x in stmts[:-1]):
+        die(fn, f'helper {what} must be simple assignments followed by one return')
+    c2 = ctx.copy()
+    c2.env = {}
+    if cls is not None:
+        c2.cls, c2.defcls, c2.self_term = cls, defcls, self_term
+
+    def args(i):
+        if i == len(params):
+            return locals_(0)
+
+        def ka(t, ty):
+            c2.env[params[i]] = (t, ty)
+            return args(i + 1)
+        return tr(ctx, arg_nodes[i], ka)
+
+    def locals_(j):
+        c2.n = max(c2.n, ctx.n)
+        if j == len(stmts) - 1:
+            r = tr(c2, stmts[-1].value, k)
+            ctx.n = max(ctx.n, c2.n)
+            return r
+        st = stmts[j]
+        tgt = st.targets[0] if isinstance(st, ast.Assign) else st.target
+
+        def kl(t, ty):
+            c2.env[tgt.id] = (t, ty)
+            ctx.n = max(ctx.n, c2.n)
+            return locals_(j + 1)
+        return tr(c2, st.value, kl)
+    return args(0)
+
+
+def tr_cond(ctx, e):
+    """a pure test; a dict in boolean position means "non-empty" """
+    if is_effect(ctx, e):
+        die(e, 'effectful condition')
+    out = []
+
+    def k(t, ty):
+        if ty == 'dict':
+            t = f'(negb (isnil {t}))'
+        elif ty != 'bool':
+            die(e, f'condition of type {ty}')
+        out.append(t)
+        return t
+    tr(ctx, e, k)
+    return out[0]
 
 
 def tr_pure(ctx, e, want):
@@ -448,6 +482,56 @@ def strip_doc(stmts):
     return stmts
 
 
+
+# ---- canonicalisation of equivalent idioms (before translation) -------------------------------------------------------
+
+def terminates(stmts):
+    if not stmts:
+        return False
+    last = stmts[-1]
+    if isinstance(last, (ast.Return, ast.Raise)):
+        return True
+    if isinstance(last, ast.If):
+        return terminates(last.body) and terminates(last.orelse)
+    return False
+
+
+def normalise(stmts):
+    """`return A if c else B` = `if c: return A` / `return B`;  `if c: <returns> else: REST` = `if c: <returns>` followed by REST
+    (an else branch after a returning branch is an early return); applied recursively"""
+    out = []
+    for s in stmts:
+        if isinstance(s, ast.Return) and isinstance(s.value, ast.IfExp):
+            e = s.value
+            s = ast.If(test=e.test, body=[ast.Return(value=e.body)], orelse=[ast.Return(value=e.orelse)])
+            ast.copy_location(s, e)
+            for r in (s.body[0], s.orelse[0]):
+                ast.copy_location(r, e)
+        if isinstance(s, ast.If):
+            body = normalise(s.body)
+            orelse = normalise(s.orelse)
+            if orelse and terminates(body):
+                n = ast.If(test=s.test, body=body, orelse=[])
+                ast.copy_location(n, s)
+                out.append(n)
+                out.extend(orelse)
+                continue
+            n = ast.If(test=s.test, body=body, orelse=orelse)
+            ast.copy_location(n, s)
+            out.append(n)
+            continue
+        if isinstance(s, ast.For):
+            n = ast.For(target=s.target, iter=s.iter, body=normalise(s.body), orelse=s.orelse)
+            ast.copy_location(n, s)
+            out.append(n)
+            continue
+        out.append(s)
+    return out
+
+
+def body_of(fn):
+    return normalise(strip_doc(fn.body))
+
 # ---- statements --------------------------------------------------------------------------------------------------
 
 def ret_k(rty):
@@ -470,7 +554,7 @@ def block(ctx, stmts, rty):
     if isinstance(s, ast.If):
         if s.orelse:
             die(s, 'if with else')
-        c = tr_pure(ctx, s.test, 'bool')
+        c = tr_cond(ctx, s.test)
         a = block(ctx.copy(), s.body, rty)
         b = block(ctx, rest, rty)
         return f'(if {c} then {a} else {b})'
@@ -516,11 +600,16 @@ def loop(ctx, acc, f, rest, rty):
     iff = f.body[0]
     a, b = iff.body[0], iff.orelse[0]
     # acc = acc.union(D[v].m())      -> acc ++ (the method mapped over the dict's values, looked up at v)
-    if not (isinstance(a, ast.Assign) and isinstance(a.targets[0], ast.Name) and a.targets[0].id == acc
-            and isinstance(a.value, ast.Call) and isinstance(a.value.func, ast.Attribute) and a.value.func.attr == 'union'
-            and isinstance(a.value.func.value, ast.Name) and a.value.func.value.id == acc and len(a.value.args) == 1):
-        die(a, 'loop body: acc = acc.union(...)')
-    u = a.value.args[0]
+    u = None
+    if isinstance(a, ast.Assign) and isinstance(a.targets[0], ast.Name) and a.targets[0].id == acc:
+        v_ = a.value
+        if (isinstance(v_, ast.Call) and isinstance(v_.func, ast.Attribute) and v_.func.attr == 'union'
+                and isinstance(v_.func.value, ast.Name) and v_.func.value.id == acc and len(v_.args) == 1):
+            u = v_.args[0]
+        elif isinstance(v_, ast.BinOp) and isinstance(v_.op, ast.BitOr) and isinstance(v_.left, ast.Name) and v_.left.id == acc:
+            u = v_.right
+    if u is None:
+        die(a, 'loop body: acc = acc.union(...) / acc = acc | ...')
     if not (isinstance(u, ast.Call) and isinstance(u.func, ast.Attribute) and u.func.attr in METHODS and not METHODS[u.func.attr][3]
             and not u.args and isinstance(u.func.value, ast.Subscript) and isinstance(u.func.value.slice, ast.Name)
             and u.func.value.slice.id == v):
@@ -623,6 +712,30 @@ def fblock(ctx, stmts, cont):
     if isinstance(s, ast.Return):
         if s.value is None:
             die(s, 'bare return')
+        v = s.value
+        if (isinstance(v, ast.Call) and isinstance(v.func, ast.Name) and v.func.id in FUNCS and v.func.id not in ('match_single', 'match')
+                and not v.keywords):
+            # return helper(args): the helper's statements take the place of the return
+            fn = FUNCS[v.func.id]
+            params = [a.arg for a in fn.args.args]
+            if len(params) != len(v.args) or fn.args.defaults or fn.decorator_list:
+                die(v, 'helper call')
+            c2 = ctx.copy()
+            c2.env = {}
+            c2.refined = {}
+
+            def hargs(i):
+                if i == len(params):
+                    c2.n = max(c2.n, ctx.n)
+                    r = fblock(c2, body_of(fn), None)
+                    ctx.n = max(ctx.n, c2.n)
+                    return r
+
+                def ka(t, ty):
+                    c2.env[params[i]] = (t, ty)
+                    return hargs(i + 1)
+                return tr(ctx, v.args[i], ka)
+            return hargs(0)
         return fret(ctx, s.value)
     if isinstance(s, (ast.Assign, ast.AnnAssign)):
         tgt = s.targets[0] if isinstance(s, ast.Assign) else s.target
@@ -761,8 +874,13 @@ def fblock(ctx, stmts, cont):
     die(s, 'statement')
 
 
+FUNCS = {}     # module-level functions of pattern.py
+
+
 def gen_matching(tree, classes):
     fns = {f.name: f for f in tree.body if isinstance(f, ast.FunctionDef)}
+    FUNCS.clear()
+    FUNCS.update(fns)
     out = []
     f = fns.get('match_single')
     if f is None or [a.arg for a in f.args.args] != ['pattern', 'instance', 'extend'] or len(f.args.defaults) != 1 \
@@ -772,7 +890,7 @@ def gen_matching(tree, classes):
     ctx.env = {'pattern': ('a_pattern', 'pat'), 'instance': ('a_instance', 'pat'), 'extend': ('a_extend', 'dict')}
     del AUX[:]
     BINDER_T.clear()
-    body = fblock(ctx, strip_doc(f.body), None)
+    body = fblock(ctx, body_of(f), None)
     out.append('(* continuations of match_single shared by both outcomes of a test (one definition each, innermost first) *)')
     for _name, text in AUX:
         out.append(text)
@@ -785,7 +903,7 @@ def gen_matching(tree, classes):
         raise SystemExit('pypattern translator: match: unexpected signature / decorators')
     ctx = Ctx(None, classes, True)
     ctx.env = {'equations': ('a_equations', 'eqs')}
-    body = fblock(ctx, strip_doc(f.body), None)
+    body = fblock(ctx, body_of(f), None)
     out.append('(* match(equations) *)\nDefinition src_match (n:nat) (a_equations:list (ppat*ppat)) : option (option delta) :=\n'
                f'  {body}.\n')
     return out
@@ -793,26 +911,53 @@ def gen_matching(tree, classes):
 
 # ---- driver ---------------------------------------------------------------------------------------------------------
 
+BASES = {}     # class -> list of base class names (source order)
+
+
 def methods_of(tree):
     classes = {}
     for node in tree.body:
         if isinstance(node, ast.ClassDef):
             classes[node.name] = {f.name: f for f in node.body if isinstance(f, ast.FunctionDef)}
+            BASES[node.name] = [b.id for b in node.bases if isinstance(b, ast.Name)]
     return classes
+
+
+def mro(cls):
+    out = [cls]
+    for b in BASES.get(cls, []):
+        for c in mro(b):
+            if c not in out:
+                out.append(c)
+    return out
+
+
+def resolve(classes, cls, m, after=None):
+    """the method m of class cls as Python finds it (through the base classes); `after` = start behind that class
+    (super()).  Returns (defining class, FunctionDef) or (None, None)"""
+    chain = mro(cls)
+    if after is not None:
+        chain = chain[chain.index(after) + 1:] if after in chain else []
+    for c in chain:
+        fn = classes.get(c, {}).get(m)
+        if fn is not None:
+            return c, fn
+    return None, None
 
 
 def arm(cls, classes, m):
     gname, params, rty, fuel = METHODS[m]
-    fn = classes[cls].get(m)
+    defcls, fn = resolve(classes, cls, m)
     if fn is None:
         raise SystemExit(f'pypattern translator: {cls}.{m} not found')
     got = [a.arg for a in fn.args.args]
     if got != ['self'] + [p for p, _ in params] or fn.args.defaults or fn.args.kwonlyargs or fn.args.vararg:
         raise SystemExit(f'pypattern translator: {cls}.{m}: parameters {got} (expected self, {[p for p, _ in params]})')
     ctx = Ctx(cls, classes, fuel)
+    ctx.defcls = defcls
     for p, t in params:
         ctx.env[p] = ('a_' + p, t)
-    body = block(ctx, strip_doc(fn.body), rty)
+    body = block(ctx, body_of(fn), rty)
     if not fuel:
         # pure methods: the body is `Some t` built from pure parts; strip the option
         body = unsome(body)
@@ -881,7 +1026,7 @@ def generate(repo):
         ctx = Ctx('BasicInterpreter', {'BasicInterpreter': bcls}, True)
         for p, t in params:
             ctx.env[p] = ('a_' + p, t)
-        body = block_rule(ctx, strip_doc(fn.body))
+        body = block_rule(ctx, body_of(fn))
         out.append(f'(* BasicInterpreter.{m}: a Proved is represented by its conclusion; None = AssertionError or out of fuel *)\n'
                    f'Definition {gname} (n:nat) {sig} : option ppat :=\n  {body}.\n')
     return '\n'.join(out)
